@@ -531,17 +531,20 @@ Definition detaches (o : wop) : Prop :=
   o = WDetach \/ o = WDetachAll \/ o = WBusRemove \/ o = WBusRemoveAll \/ o = WRemoveInterface.
 
 Lemma world_detach_apply : forall w o,
-  detaches o -> w_has_static w = false -> world_can_id (wapply w o) = w_id w.
+  detaches o -> w_iface_removed w = false -> w_has_static w = false -> world_can_id (wapply w o) = w_id w.
 Proof.
-  intros w o Ho Hs. rewrite world_cases_lemma.
-  destruct Ho as [-> | [-> | [-> | [-> | ->]]]];
-    cbn [wapply upd_links upd_big w_has_static w_attached w_on_bus w_id];
+  intros w o Ho Hr Hs. rewrite world_cases_lemma.
+  destruct Ho as [-> | [-> | [-> | [-> | ->]]]]; cbn [wapply]; rewrite ?Hr;
+    cbn [upd_links upd_big w_has_static w_attached w_on_bus w_id];
     rewrite Hs; cbn [andb]; try reflexivity; rewrite andb_false_r; reflexivity.
 Qed.
 
+(* (the node has two interfaces; RemoveInterface takes the observed one first, hence the hypothesis
+   that it is still there) *)
 Lemma world_detach_lemma : forall w o,
-  detaches o -> accepted w o = true -> w_has_static w = false -> world_can_id (wstep w o) = w_id w.
-Proof. intros w o Ho Ha Hs. rewrite wstep_accepted_lemma by exact Ha. apply world_detach_apply; assumption. Qed.
+  detaches o -> accepted w o = true -> w_iface_removed w = false -> w_has_static w = false ->
+  world_can_id (wstep w o) = w_id w.
+Proof. intros w o Ho Ha Hr Hs. rewrite wstep_accepted_lemma by exact Ha. apply world_detach_apply; assumption. Qed.
 
 Lemma world_reattach_lemma : forall w o,
   detaches o -> w_has_static w = false ->
@@ -549,10 +552,31 @@ Lemma world_reattach_lemma : forall w o,
   = calculate (nth (w_cur w) (w_builders w) []) (w_prio w) (w_id w) (w_node_id w).
 Proof.
   intros w o Ho Hs. rewrite world_cases_lemma.
-  destruct Ho as [-> | [-> | [-> | [-> | ->]]]];
-    cbn [wapply upd_links upd_big w_has_static w_attached w_on_bus w_id w_prio w_node_id w_builders w_cur];
+  destruct Ho as [-> | [-> | [-> | [-> | ->]]]]; cbn [wapply]; try destruct (w_iface_removed w);
+    cbn [wapply upd_links upd_big upd_gw w_has_static w_attached w_on_bus w_id w_prio w_node_id w_builders w_cur];
     rewrite Hs; reflexivity.
 Qed.
+
+(* the gateway message (second interface of the node, on another bus): nothing but removing that
+   very interface from the node detaches it — in particular no operation on the first bus does *)
+Lemma gateway_frame_lemma : forall w o,
+  o <> WRemoveInterface -> w_gw_on_bus (wstep w o) = w_gw_on_bus w.
+Proof.
+  intros w o Ho. unfold wstep. destruct (accepted w o); [|reflexivity].
+  destruct o; try reflexivity; try congruence.
+  cbn [wapply]. destruct (apply_edit (nth i (w_builders w) []) e); reflexivity.
+Qed.
+
+Lemma gateway_remove_first_lemma : forall w,
+  w_iface_removed w = false -> w_gw_on_bus (wstep w WRemoveInterface) = w_gw_on_bus w.
+Proof.
+  intros w Hr. unfold wstep. destruct (accepted w WRemoveInterface); [|reflexivity].
+  cbn [wapply]. rewrite Hr. reflexivity.
+Qed.
+
+Lemma gateway_cases_lemma : forall w,
+  gateway_can_id w = if w_gw_on_bus w then calculate default_ops 0 (w_gw_id w) (w_node_id w) else w_gw_id w.
+Proof. intros w. unfold gateway_can_id, get_can_id. cbn. destruct (w_gw_on_bus w); reflexivity. Qed.
 
 (* a REFUSED attach attempt (AddNodeInterface refused because of an oversized message, a static
    CAN-ID or a node id already on the bus; AddSentMessage refused) leaves the message where it was:
@@ -611,7 +635,7 @@ Qed.
 (* ---------- reachable worlds: an invariant, so that the statements are about states the library
    can be brought into and not about arbitrary records ---------- *)
 Inductive wreach : world -> Prop :=
-| reach_init : forall mid nid sib n2 big st2 pool, wreach (init_world mid nid sib n2 big st2 pool)
+| reach_init : forall mid nid sib n2 big gw st2 pool, wreach (init_world mid nid sib n2 big gw st2 pool)
 | reach_step : forall w o, wreach w -> wreach (wstep w o).
 
 Definition winv (w : world) : Prop :=
@@ -627,7 +651,7 @@ Proof. intros A i v l. revert i. induction l as [|x r IH]; intros [|i]; cbn [set
 Lemma in32_0 : in32 0.
 Proof. unfold in32. lia. Qed.
 
-Lemma winv_init : forall mid nid sib n2 big st2 pool, winv (init_world mid nid sib n2 big st2 pool).
+Lemma winv_init : forall mid nid sib n2 big gw st2 pool, winv (init_world mid nid sib n2 big gw st2 pool).
 Proof.
   intros. unfold winv, init_world. cbn [w_cur w_builders w_id w_prio w_static w_node_id w_has_static w_big w_on_bus length].
   repeat split; try apply u32_in32; try apply in32_0; try lia; try discriminate; try reflexivity.
@@ -643,8 +667,12 @@ Proof.
   destruct Hinv as [Hc [Hi [Hp [Hs [Hn [Hs1 [Hs0 Hb]]]]]]].
   destruct o; cbn [wapply];
     unfold winv; cbn [w_cur w_builders w_id w_prio w_static w_node_id w_has_static w_big w_on_bus
-                      upd_msg upd_links upd_node upd_builders upd_big];
-    try (winv_fin; fail).
+                      upd_msg upd_links upd_node upd_builders upd_big upd_gw];
+    try (winv_fin; fail);
+    try (destruct (w_iface_removed w);
+         cbn [w_cur w_builders w_id w_prio w_static w_node_id w_has_static w_big w_on_bus
+              upd_msg upd_links upd_node upd_builders upd_big upd_gw];
+         winv_fin; fail).
   - (* WBusAdd: refused when the oversized message is there *)
     winv_fin. cbn [accepted] in Ha. match goal with Hbig : w_big w = true |- _ => rewrite Hbig in Ha end.
     cbn [negb] in Ha. rewrite andb_false_r in Ha. cbn [andb] in Ha. discriminate.
